@@ -167,6 +167,7 @@ static int cif_container_create_loop_internal(
         SET_RESULT(CIF_MEMORY_ERROR);
     } else {
 
+        temp->names = NULL;  /* cif_loop_free() releases the names on every exit from here on */
         temp->category = cif_u_strdup(category);
         if ((category != NULL) && (temp->category == NULL)) {
             SET_RESULT(CIF_MEMORY_ERROR);
@@ -174,7 +175,6 @@ static int cif_container_create_loop_internal(
             NESTTX_HANDLING;
 
             TRACELINE;
-            temp->names = NULL;
 
             /* begin a transaction */
             if (BEGIN_NESTTX(cif->db) == SQLITE_OK) {
@@ -512,6 +512,7 @@ int cif_container_get_frame(
     } else {
         int result;
 
+        temp->code = NULL;  /* not touched by the normalizer when it fails */
         temp->code_orig = NULL;
         result = cif_normalize_name(code, -1, &(temp->code), CIF_INVALID_FRAMECODE);
         if (result != CIF_OK) {
@@ -787,11 +788,11 @@ int cif_container_get_category_loop(
     if (temp == NULL) {
         SET_RESULT(CIF_MEMORY_ERROR);
     } else {
+        temp->names = NULL;  /* cif_loop_free() releases the names on every exit from here on */
         temp->category = cif_u_strdup(category);
         if (temp->category == NULL) {
             SET_RESULT(CIF_MEMORY_ERROR);
         } else {
-            temp->names = NULL;
             if ((sqlite3_bind_int64(cif->get_cat_loop_stmt, 1, container->id) == SQLITE_OK)
                     && (sqlite3_bind_text16(cif->get_cat_loop_stmt, 2, category, -1, SQLITE_STATIC) == SQLITE_OK)) {
                 STEP_HANDLING;
